@@ -37,7 +37,7 @@ func (c Case) Text() string {
 var candidates = []string{"z", "m", "a", "b", "c", "x", "y", "n", "f", "k", "e", "err", "more", "r", "acc", "go", "v", "zz", "zz-unbound", "tmp"}
 
 func genCase(t *rapid.T) Case {
-	p := gen.Program(t, gen.PFlags{Cond: true, Try: true, Sentinels: true, Macros: true, QQ: true, Budget: 60})
+	p := gen.Program(t, gen.PFlags{Cond: true, Try: true, Sentinels: true, Macros: true, QQ: true, Budget: 60, Atoms: true})
 	us := []string{}
 	for u := range p.Uses {
 		us = append(us, u)
@@ -79,11 +79,12 @@ func check(c Case) pbt.Verdict {
 	}
 	in := refmal.New()
 	refmal.RegisterSentinels(in)
+	refmal.RegisterAtoms(in)
 	o := in.Run(c.Forms)
 	if o.Aborted != "" {
 		return pbt.Verdict{Excluded: "model-" + strings.SplitN(o.Aborted, ":", 2)[0], Labels: []string{"excluded:" + o.Aborted}}
 	}
-	e := box.CoreEnv()
+	e := box.CoreEnvWithAtoms()
 	tr := box.AddTrace(e)
 	box.AddSentinels(e)
 	ctx, cancel := context.Background(), context.CancelFunc(func() {})
